@@ -1089,3 +1089,22 @@ func init() {
 	register(&Stream{Name: "D1", Gen: genD1, Exec: execD1})
 	register(&Stream{Name: "G1", Gen: genG1, Exec: execG1})
 }
+
+// Stream G3: a burst of adjacent Pippenger-sized multiscalar requests (G1 lines, executed and modelled as such).  Run from
+// 16 goroutines, many of them are inside the bucket method at the same time: per-call scratch space (buckets, digit
+// arrays, point lists) that is accidentally shared between calls then shows as a wrong sum (seeds C03-m8, C11-m8).
+func genG3(g *Gen) {
+	pl := cvNewPool(g, 32)
+	for i := 0; !g.Full(); i++ {
+		op := []string{"msmvt", "xmsmvt", "msmvt"}[i%3]
+		n := []int{190, 191, 200, 195}[i%4]
+		if op == "xmsmvt" && n == 190 {
+			n = 191 // the expanded entry point switches at > 190
+		}
+		cvEmitMsm(g, pl, fmt.Sprintf("burst.%s.%d", op, n), op, n, i%len(cvVariants))
+	}
+}
+
+func init() {
+	register(&Stream{Name: "G3", Gen: genG3, Exec: func(op string, a []string) string { return "bad-op" }})
+}
